@@ -105,6 +105,10 @@ def _may_return_or_write_address(prog, callee):
 
 
 def arithmetic_sites(prog, key):
+    """Address computations in a body whose result can leave the function: flow into the return value, be stored
+    through a pointer / reference, or be handed on to a callee that can return or store it. A computed address
+    that is only the *destination* of a write or the source of a read (`p.add(i).write(x)`, `*p.add(i)`) does not
+    become anybody's pointer and cannot change the identity of a converted one."""
     b = prog.bodies[key]
     out = []
     for bb in b["blocks"]:
@@ -112,19 +116,104 @@ def arithmetic_sites(prog, key):
             if s["k"] != "assign" or s.get("x"):
                 continue
             r = s["r"]
+            what = None
             if r["k"] == "binop" and r["op"].startswith("Offset"):
-                out.append(("offset", s["l"]))
+                what = "offset"
             if r["k"] == "cast" and r["ck"].startswith(ARITH_CASTS):
-                out.append((r["ck"], s["l"]))
+                what = r["ck"]
             if r["k"] == "cast" and r["ck"].startswith("Transmute") and _ptr_like(prog, r["ty"]) and \
                     prog.ty(r["from"]).get("k") in ("uint", "int"):
-                out.append(("int->ptr transmute", s["l"]))
+                what = "int->ptr transmute"
+            if what and (s["p"]["p"] or _escapes(prog, b, s["p"]["l"])):
+                out.append((what, s["l"]))
         t = bb["t"]
         if t and t["k"] == "call" and not t["f"].get("indirect") and not t.get("x"):
             n = norm((t["f"].get("resolved") or t["f"])["def"])
-            if ARITH_CALLS.search(n):
+            if ARITH_CALLS.search(n) and (t["d"]["p"] or _escapes(prog, b, t["d"]["l"])):
                 out.append((n, t["l"]))
     return out
+
+
+# callees that consume a pointer as the place to write to / read from and do not hand it on (argument 0 only)
+_DEREF_SINKS = re.compile(r"^core::ptr::(mut_ptr|const_ptr|non_null)::.*::(write|write_unaligned|write_volatile|write_bytes|read|"
+                          r"read_unaligned|read_volatile|drop_in_place)$|"
+                          r"^core::ptr::(write|read|write_unaligned|read_unaligned|drop_in_place|write_bytes)$|"
+                          r"^core::mem::maybe_uninit::MaybeUninit::write$")
+
+
+def _escapes(prog, b, local):
+    """Forward taint from `local` over the body: does the value reach the return place, a store through a
+    projection, or a call that may keep / return it?"""
+    tainted = {local}
+    changed = True
+    while changed:
+        changed = False
+        for bb in b["blocks"]:
+            for s in bb["s"]:
+                if s["k"] != "assign":
+                    continue
+                r = s["r"]
+                ops = []
+                if "o" in r and isinstance(r["o"], dict):
+                    ops.append(r["o"])
+                for k in ("a", "b"):
+                    if k in r and isinstance(r[k], dict):
+                        ops.append(r[k])
+                ops += [o for o in r.get("ops", []) if isinstance(o, dict)]
+                src = [o["p"]["l"] for o in ops if o.get("k") in ("copy", "move")]
+                if r["k"] in ("ref", "rawptr") and "p" in r:
+                    src.append(r["p"]["l"])
+                if not any(x in tainted for x in src):
+                    continue
+                if r["k"] == "binop" and not r["op"].startswith("Offset"):
+                    # comparisons / integer arithmetic on addresses yield scalars, not pointers
+                    if not _carries_address(prog, r["ty"]) if "ty" in r else True:
+                        continue
+                d = s["p"]
+                if d["p"]:
+                    # a store through a projection: into *p / (*p).f (escapes) or into a field of a local aggregate
+                    if any(pp[0] == "d" for pp in d["p"]):
+                        return True
+                if d["l"] == 0:
+                    return True
+                if d["l"] not in tainted:
+                    tainted.add(d["l"])
+                    changed = True
+            t = bb["t"]
+            if not t:
+                continue
+            if t["k"] == "call":
+                args = t.get("args", [])
+                hit = [i for i, a in enumerate(args) if a.get("k") in ("copy", "move") and a["p"]["l"] in tainted]
+                if not hit:
+                    continue
+                n = "<indirect>" if t["f"].get("indirect") else norm((t["f"].get("resolved") or t["f"])["def"])
+                if _DEREF_SINKS.search(n) and hit == [0]:
+                    continue
+                d = t["d"]
+                dty = _place_ty_simple(prog, b, d)
+                if dty is not None and not _carries_address(prog, dty):
+                    # the callee returns a scalar; it could still store the pointer through a &mut / raw argument
+                    if t["f"].get("local") and _may_return_or_write_address(prog, n):
+                        return True
+                    continue
+                if d["p"] and any(pp[0] == "d" for pp in d["p"]):
+                    return True
+                if d["l"] == 0:
+                    return True
+                if d["l"] not in tainted:
+                    tainted.add(d["l"])
+                    changed = True
+    return False
+
+
+def _place_ty_simple(prog, b, pl):
+    if pl["p"]:
+        return None
+    try:
+        return b["locals"][pl["l"]]
+    except (IndexError, KeyError):
+        return None
 
 
 def cast_only(chk, prog, rule="cast-only-conversions", config="default"):
